@@ -2061,6 +2061,13 @@ theorem nodeRangeOk.ends {d : Node} {a b depth : Nat} (h : nodeRangeOk d a b dep
   obtain ⟨rf, rt, hf, ht, hab, _, hfb, htb⟩ := h
   exact ⟨rf, rt, hf, ht, hab, hfb, htb⟩
 
+/-- the node condition asked of `set_node_markup(pos, type, attrs, marks)`: a non-leaf node, retyped to a
+    non-leaf type (the complement: finding C04-leaf-retype and the Fitter path), canonical mark set -/
+def retypeNodeOk (S : Schema) (d : Node) (pos : Nat) (ty : Option TypeId) (marks : Option Marks) : Prop :=
+  ∀ node, d.nodeAt pos = .ok (some node) → node.isLeaf = false ∧
+    (S.nodeType (ty.getD (S.tyOf node))).isLeaf = false ∧
+    canonicalMarks S (setFrom (marksOr marks node)) = true
+
 /-- **what is asked of an operation of a run** (`tr` before, `tr1` after).
     * `add_mark` / `remove_mark`: no inline node with content in the document (`flatInline`; no bundled schema
       has one), the same-type guard (finding C04-same-type-mark-order) and pair-alignment per recorded step;
@@ -2079,10 +2086,7 @@ def OpResidual (S : Schema) (op : Op) (tr tr1 : Tr) : Prop :=
       HistAll (fun s _ d' => s.undoAligned d') (appended tr tr1) tr1.doc
   | .wrap a b depth ws => nodeRangeOk tr.doc a b depth ∧ (∀ w ∈ ws, (S.nodeType w.1).isLeaf = false) ∧
       HistAll (fun s _ d' => s.undoAligned d') (appended tr tr1) tr1.doc
-  | .setNodeMarkup pos ty _ marks =>
-      (∀ node, tr.doc.nodeAt pos = .ok (some node) → node.isLeaf = false ∧
-        (S.nodeType (ty.getD (S.tyOf node))).isLeaf = false ∧
-        canonicalMarks S (setFrom (marksOr marks node)) = true) ∧
+  | .setNodeMarkup pos ty _ marks => retypeNodeOk S tr.doc pos ty marks ∧
       HistAll (fun s _ d' => s.undoAligned d') (appended tr tr1) tr1.doc
   | .mark _ => flatInline S tr.doc = true ∧
       HistAll (fun s d d' => s.sameTypeGuard S d ∧ s.undoAligned d') (appended tr tr1) tr1.doc
@@ -2283,6 +2287,31 @@ theorem structGuardB_family (S : Schema) (s : Step) (d d' : Node) (h : structGua
 theorem appended_eq {tr tr1 : Tr} {h2 : List (Step × Node)} (e : tr1.hist = tr.hist ++ h2) : appended tr tr1 = h2 := by
   simp [appended, e]
 
+/-- `set_node_markup` under `retypeNodeOk`: it records the one retype step -/
+theorem setNodeMarkup_step (S : Schema) (tr tr1 : Tr) (pos : Nat) (ty : Option TypeId) (attrs : Attrs)
+    (marks : Option Marks) (hnode : retypeNodeOk S tr.doc pos ty marks)
+    (h : tr.runOp S (.setNodeMarkup pos ty attrs marks) = some tr1) :
+    ∃ node nn, tr.doc.nodeAt pos = .ok (some node) ∧ node.isLeaf = false ∧
+      (S.nodeType (ty.getD (S.tyOf node))).isLeaf = false ∧
+      canonicalMarks S (setFrom (marksOr marks node)) = true ∧
+      S.createNode (ty.getD (S.tyOf node)) attrs (marksOr marks node) = .ok nn ∧
+      tr.step S (retypeStep pos (pos + node.size) nn) = .ok tr1 := by
+  obtain ⟨st', hs, rfl⟩ := Tr.planned_some (run := fun st => st.setNodeMarkupF S pos ty attrs marks) h
+  unfold PSt.setNodeMarkupF at hs
+  simp only at hs
+  split at hs
+  · simp at hs
+  · simp at hs
+  · rename_i node hna
+    obtain ⟨hnl, hleaf, hms⟩ := hnode node hna
+    split at hs
+    · simp at hs
+    · rename_i nn hc
+      rw [if_neg (by simp [hnl])] at hs
+      split at hs
+      · simp at hs
+      · exact ⟨node, nn, hna, hnl, hleaf, hms, hc, PSt.step_tr' (liftP_ok hs)⟩
+
 /-- one operation: the steps it recorded satisfy `FamilyGuard` -/
 theorem op_family (S : Schema) (op : Op) (tr tr1 : Tr) (hlen : tr.steps.length = tr.docs.length)
     (hI : FamilyInv S tr.doc) (h : tr.runOp S op = some tr1) (hres : OpResidual S op tr tr1) :
@@ -2325,24 +2354,11 @@ theorem op_family (S : Schema) (op : Op) (tr tr1 : Tr) (hlen : tr.steps.length =
     exact ⟨wrapGuard_family S _ _ a b depth ws st hI.1 hI.2 hr hl hb ha hal.1, trivial⟩
   | setNodeMarkup pos ty attrs marks =>
     obtain ⟨hnode, hal⟩ := hres
-    obtain ⟨st', hs, rfl⟩ := Tr.planned_some (run := fun st => st.setNodeMarkupF S pos ty attrs marks) h
-    unfold PSt.setNodeMarkupF at hs
-    simp only at hs
-    split at hs
-    · simp at hs
-    · simp at hs
-    · rename_i node hna
-      obtain ⟨hnl, hleaf, hms⟩ := hnode node hna
-      split at hs
-      · simp at hs
-      · rename_i nn hc
-        rw [if_neg (by simp [hnl])] at hs
-        split at hs
-        · simp at hs
-        · obtain ⟨e, ha⟩ := Tr.step_hist hlen (PSt.step_tr' (liftP_ok hs))
-          rw [appended_eq e] at hal ⊢
-          exact ⟨setNodeMarkupGuard_family S _ _ node nn pos _ attrs _ hI.1 hI.2 hna hnl hleaf hms hc ha hal.1,
-            trivial⟩
+    obtain ⟨node, nn, hna, hnl, hleaf, hms, hc, hs⟩ := setNodeMarkup_step S tr tr1 pos ty attrs marks hnode h
+    obtain ⟨e, ha⟩ := Tr.step_hist hlen hs
+    rw [appended_eq e] at hal ⊢
+    exact ⟨setNodeMarkupGuard_family S _ _ node nn pos _ attrs _ hI.1 hI.2 hna hnl hleaf hms hc ha hal.1,
+      trivial⟩
   | setBlockType f t ty attrs => exact hres
 
 /-- a run of operations: what it appended replays and satisfies `FamilyGuard` -/
@@ -2419,8 +2435,9 @@ theorem bmp_of_keeps_content (d d' : Node)
     rw [h] at this
     exact hb _ (List.mem_filter.mp this).1
 
-/-- the four structural edits -/
+/-- the four structural edits and `set_node_markup` -/
 def structuralOp : Op → Bool
+  | .setNodeMarkup .. => true
   | .split .. => true
   | .join .. => true
   | .lift .. => true
@@ -2432,7 +2449,28 @@ def StructResidual (S : Schema) (op : Op) (tr _tr1 : Tr) : Prop :=
   match op with
   | .lift a b depth _ => nodeRangeEnds tr.doc a b depth
   | .wrap a b depth ws => nodeRangeOk tr.doc a b depth ∧ (∀ w ∈ ws, (S.nodeType w.1).isLeaf = false)
+  | .setNodeMarkup pos ty _ marks => retypeNodeOk S tr.doc pos ty marks
   | _ => True
+
+/-- the retype step is a structure-only step: it keeps the text and leaf tokens -/
+theorem retype_keeps_content (S : Schema) (d d' node : Node) (pos : Nat) (ty : TypeId) (a : Attrs) (m : Marks)
+    (hna : d.nodeAt pos = .ok (some node)) (hnl : node.isLeaf = false)
+    (h : S.apply (retypeStep pos (pos + node.size) (.elem ty a m [])) d = .ok d') :
+    (ftoks d'.kids).filter Tok.isContent = (ftoks d.kids).filter Tok.isContent := by
+  have _ := hna
+  have hsz : 2 ≤ node.size := by
+    cases node with
+    | elem t a' m' k => simp [Node.size]
+    | text s' m' => simp [Node.isLeaf] at hnl
+    | leaf t a' m' => simp [Node.isLeaf] at hnl
+  refine C12.structural_keeps_content S d d' _ ?_ ?_ h
+  · simp only [retypeStep, isStructuralAt, isStructural, Bool.true_and, Bool.and_eq_true, decide_eq_true_eq]
+    refine ⟨?_, ⟨by omega, by omega⟩, by omega⟩
+    simp [sliceToks', ftoks, Node.toks, structuralOnly, Tok.isContent, fsize, Node.size]
+  · intro f t gf gt sl i b e
+    simp only [retypeStep, Step.replaceAround.injEq] at e
+    obtain ⟨_, _, _, _, rfl, rfl, _⟩ := e
+    simp [Slice.wf, Slice.size, fsize, Node.size]
 
 /-- a structural edit that went through: its step, and the new document keeps the text and leaf tokens -/
 theorem structOp_step (S : Schema) (op : Op) (tr tr1 : Tr) (hop : structuralOp op = true)
@@ -2459,13 +2497,17 @@ theorem structOp_step (S : Schema) (op : Op) (tr tr1 : Tr) (hop : structuralOp o
     obtain ⟨e, ha⟩ := Tr.step_hist hlen hs
     obtain ⟨⟨_, _, _, _, hab, _, _, _⟩, hl⟩ := hres
     exact ⟨st, e, ha, C12.wrap_keeps_content S _ _ a b depth ws st hab hl hb ha⟩
+  | setNodeMarkup pos ty attrs marks =>
+    obtain ⟨node, nn, hna, hnl, hleaf, _, hc, hs⟩ := setNodeMarkup_step S tr tr1 pos ty attrs marks hres h
+    obtain ⟨e, ha⟩ := Tr.step_hist hlen hs
+    obtain ⟨a, rfl⟩ := createNode_elem S _ attrs _ nn hleaf hc
+    exact ⟨_, e, ha, retype_keeps_content S _ _ node pos _ a _ hna hnl ha⟩
   | step => simp [structuralOp] at hop
   | replace => simp [structuralOp] at hop
   | mark => simp [structuralOp] at hop
   | addNodeMark => simp [structuralOp] at hop
   | removeNodeMark => simp [structuralOp] at hop
   | setNodeAttribute => simp [structuralOp] at hop
-  | setNodeMarkup => simp [structuralOp] at hop
   | setBlockType => simp [structuralOp] at hop
 
 /-- on a document without text outside the BMP, a run of structural edits meets `OpResidual` -/
@@ -2491,13 +2533,13 @@ theorem structOps_residual (S : Schema) (htr : compatTransB S = true) (hts : Tex
         | join pos depth => exact hal
         | lift a b depth target => exact ⟨hres.1, hal⟩
         | wrap a b depth ws => exact ⟨hres.1.1, hres.1.2, hal⟩
+        | setNodeMarkup pos ty attrs marks => exact ⟨hres.1, hal⟩
         | step => simp [structuralOp] at hop
         | replace => simp [structuralOp] at hop
         | mark => simp [structuralOp] at hop
         | addNodeMark => simp [structuralOp] at hop
         | removeNodeMark => simp [structuralOp] at hop
         | setNodeAttribute => simp [structuralOp] at hop
-        | setNodeMarkup => simp [structuralOp] at hop
         | setBlockType => simp [structuralOp] at hop
       refine ⟨hr1, ?_⟩
       obtain ⟨h2, e1, l1, n1, r1⟩ := (Tr.runOp_grows op h1).hist hlen
@@ -2509,10 +2551,11 @@ theorem structOps_residual (S : Schema) (htr : compatTransB S = true) (hts : Tex
       exact structOps_residual S htr hts ops tr1 l1 hI1 hb1
         (fun o ho => hall o (List.mem_cons_of_mem _ ho)) hres.2
 
-/-- **a history of structural edits (`split`, `join`, `lift`, `wrap`) is undone exactly**: schema with
-    transitive `compatible_content` and `TextLoop`; `doc` valid, in normal form, no text outside the Basic
-    Multilingual Plane; the ranges of `lift` / `wrap` are node ranges as `block_range` builds them, no
-    wrapper of a leaf type.  No hypothesis on the recorded steps is left. -/
+/-- **a history of structural edits (`split`, `join`, `lift`, `wrap`, `set_node_markup`) is undone exactly**:
+    schema with transitive `compatible_content` and `TextLoop`; `doc` valid, in normal form, no text outside
+    the Basic Multilingual Plane; the ranges of `lift` / `wrap` are node ranges as `block_range` builds them,
+    no wrapper of a leaf type; `set_node_markup` retypes a non-leaf node to a non-leaf type with a canonical
+    mark set.  No hypothesis on the recorded steps is left. -/
 theorem structHistory_undo_bmp (S : Schema) (htr : compatTransB S = true) (hts : TextLoop S)
     (doc : Node) (ops : List Op) (tr' : Tr) (hd : S.checkNode doc = true) (hn : fnorm doc.kids = true)
     (hb : bmpDoc doc = true) (hall : ∀ op ∈ ops, structuralOp op = true)
